@@ -425,7 +425,7 @@ func (c *FnCtx) mergeIn(b *ssa.BasicBlock) *State {
 			keys[k] = true
 		}
 	}
-	for k := range keys {
+	for _, k := range c.sortedAllocs(keys) {
 		var vs []Val
 		for _, es := range ins {
 			v, ok := es.st.cells[k]
@@ -462,6 +462,19 @@ func (c *FnCtx) mergeIn(b *ssa.BasicBlock) *State {
 	} else {
 		c.nfresh++
 		st.epochs = []epochRec{{"", c.nfresh}}
+	}
+	st.facts = map[string]bool{}
+	for f := range ins[0].st.facts {
+		all := true
+		for _, es := range ins[1:] {
+			if !es.st.facts[f] {
+				all = false
+				break
+			}
+		}
+		if all {
+			st.facts[f] = true
+		}
 	}
 	st.ghostInts = map[string]string{}
 	for _, ct := range c.fc.Counters {
@@ -591,7 +604,7 @@ func (c *FnCtx) execBlock(b *ssa.BasicBlock) {
 			first = append(first, eq(st.ghostInts[ct[0]], nv))
 			st.ghostInts[ct[0]] = nv
 		}
-		for a := range li.cells {
+		for _, a := range c.sortedAllocs(li.cells) {
 			if old, ok := st.cells[a]; ok {
 				st.cells[a] = c.freshVal(st, a.Type().(*types.Pointer).Elem(), "h."+a.Comment)
 				fo, fn := flatten(old), flatten(st.cells[a])
@@ -1515,4 +1528,27 @@ func freshRoot(v ssa.Value) bool {
 		return freshRoot(x.X)
 	}
 	return false
+}
+
+// sortedAllocs orders cells by their position in the function (deterministic generation:
+// the solver's behaviour depends on declaration order).
+func (c *FnCtx) sortedAllocs(m map[*ssa.Alloc]bool) []*ssa.Alloc {
+	if c.allocOrder == nil {
+		c.allocOrder = map[*ssa.Alloc]int{}
+		n := 0
+		for _, b := range c.fn.Blocks {
+			for _, in := range b.Instrs {
+				if a, ok := in.(*ssa.Alloc); ok {
+					c.allocOrder[a] = n
+					n++
+				}
+			}
+		}
+	}
+	out := make([]*ssa.Alloc, 0, len(m))
+	for a := range m {
+		out = append(out, a)
+	}
+	sort.Slice(out, func(i, j int) bool { return c.allocOrder[out[i]] < c.allocOrder[out[j]] })
+	return out
 }
